@@ -27,7 +27,7 @@ def rand_sched(rng, L, width):
 
 
 def rand_contender(rng, focus, maxr):
-    kind = rng.choice([0, 0, 0, 1]) if focus == "fifo" else rng.choice([0, 0, 1])
+    kind = rng.choice([0, 0, 0, 1, 2]) if focus == "fifo" else rng.choice([0, 0, 1, 2])
     nr = rng.randint(1, maxr)
     rounds = []
     for _ in range(nr):
@@ -57,7 +57,7 @@ def directed(rng, tier, tag):
     # (b) a release overlapping a request in flight: holder H = thread 0, requester W = thread 1.
     #     H: step, cas(ok) | cs, load, cas, (xchg)      W: step, cas(fails) | cas(null, fails), cas(publishes), m_pub tail
     for kh in (0, 1):
-        for kw in (0, 1):
+        for kw in (0, 1, 2):
             for rh in rels:
                 for m in merges([0, 0, 0, 0], [1, 1, 1]):
                     cont = [(kh, [(0, rh), (0, rng.choice(rels))]), (kw, [(0, rng.choice(rels))])]
@@ -94,7 +94,7 @@ def directed(rng, tier, tag):
     #     4 parties; every atomic operation on _requests is a scheduling point, marked by the library or not.
     nf = 160 if tier == "quick" else 2500
     for i in range(nf):
-        kinds = [rng.choice([0, 0, 1]) for _ in range(4)]
+        kinds = [rng.choice([0, 0, 1, 2]) for _ in range(4)]
         cont = [(kinds[0], [(0, rng.choice(rels)), (rng.choice([0, 1]), rng.choice(rels))]),
                 (kinds[1], [(0, rng.choice(rels)), (0, rng.choice(rels))]),
                 (kinds[2], [(rng.choice([0, 0, 1]), rng.choice(rels)), (0, rng.choice(rels))]),
